@@ -195,6 +195,9 @@ class Sky130Walker(h.HierarchyWalker):
         #     raise RuntimeError(msg)
 
         # Return the first one (supported as of 3.7)
+        if not subset:
+            msg = f"No Mos module for parameters {args}"
+            raise RuntimeError(msg)
         return next(iter(subset.values()))
 
     def mos_module_call(self, params: MosParams) -> h.ExternalModuleCall:
